@@ -19,6 +19,8 @@ structure Sess where
   it  : DList.Iter := {}
   zit : DList.ZipIter := {}
   sit : LSeq.Cursor := {}
+  sparse : Bool := false     -- `obs=sparse` on a constructor line (CONVENTIONS, Addendum 2)
+  obsNow : Bool := false     -- the current operation is `observe`
 
 def fmtPtr (n : Nat) : Ptr → String
   | none => "-"
@@ -45,8 +47,8 @@ def joinLive {α : Type} (xs : List (Option α)) (f : Nat → α → String) (no
   let parts := (List.range xs.length).filterMap fun k => (xs.getD k none).map (f k)
   if parts.isEmpty then none_ else " ".intercalate parts
 
-def obsM (s : Sess) : String := joinLive s.model obsM1 "none"
-def obsS (s : Sess) : String := joinLive s.spec obsS1 "none"
+def obsM (s : Sess) : String := if s.sparse && !s.obsNow then "sparse" else joinLive s.model obsM1 "none"
+def obsS (s : Sess) : String := if s.sparse && !s.obsNow then "sparse" else joinLive s.spec obsS1 "none"
 
 def phys1 (s : Sess) (k : Nat) (l : Chain) : String :=
   let n := l.nodes.length
@@ -197,8 +199,11 @@ def step (s : Sess) (c : Cmd) : Sess × String × String :=
   let idx := c.nat "idx" 0
   let refused := c.fired > 0
   let isIt := c.op.startsWith "it_" || c.op.startsWith "dit_" || c.op.startsWith "zit_"
-  let s := if isIt then s else { s with itKind := 0 }
+  let s := if isIt || c.op == "observe" then s else { s with itKind := 0 }
+  let s := { s with obsNow := c.op == "observe",
+                    sparse := s.sparse || (c.op.startsWith "new" && c.str "obs" == some "sparse") }
   if k ≥ NSLOT || from_ ≥ NSLOT || to ≥ NSLOT then fin1 { s with mem := m } "st=- badslot" else
+  if c.op == "observe" then fin1 { s with mem := m } "st=-" else
   if c.op == "new" || c.op == "new_default" then
     match getM s k with
     | some _ => fin1 { s with mem := m } "st=- busy"
